@@ -389,7 +389,7 @@ class State:
         for c in ue:
             self.propagate(seed=c, eq=True)
 
-    def kill_guards(self, cell, path=(), whole_cell=False):
+    def kill_guards(self, cell, path=(), whole_cell=False, rekey=()):
         if not self.guards:
             return
         n = len(path)
@@ -399,6 +399,14 @@ class State:
         new = {}
         for (var, value), fs in self.guards.items():
             if under(var):
+                # the key dies: facts keyed on a boolean live on under its negation when that is held by a surviving variable (`let x = !t;`)
+                if isinstance(value, int) and value in (0, 1):
+                    for kv, x in rekey:
+                        if kv == var and not under(x):
+                            keep = [f for f in _eliminate_in_facts(fs, under)
+                                    if not ((f[0] in ("iv", "var") and under(f[1])) or (f[0] in ("le", "eq") and any(under(v) for v in f[1].terms)))]
+                            if keep:
+                                new[(x, 1 - value)] = frozenset(keep) | new.get((x, 1 - value), frozenset())
                 continue
             fs = _eliminate_in_facts(fs, under)
             keep = []
@@ -525,8 +533,14 @@ class State:
                         for v in f[1].terms:
                             if v[0] == cell and v[1][:n] == path:
                                 vs.add(v)
+        # a boolean key that dies while its negation lives on in another variable (`let x = !t;`): remember where its guards go
+        rekey = []
+        if self.guards and self.defs:
+            for x, d in self.defs.items():
+                if d[0] == "not" and d[1][0] == cell and d[1][1][:n] == path and not (x[0] == cell and x[1][:n] == path):
+                    rekey.append((d[1], x))
         self.kill_vars(vs, keep_bounds=("all" if cell[0] == "H" else True))
-        self.kill_guards(cell, path, whole)
+        self.kill_guards(cell, path, whole, rekey=rekey)
 
     def kill_cell(self, cell):
         self.kill_loc(cell, (), True)
